@@ -1,3 +1,242 @@
-import Chiritori.Spec.Holds
+import Chiritori.Lemmas.FormatWs
+/-
+  C13 — Block-style removal keeps lines intact and leaves no blank-line residue.
+
+  Proved (for every text): the union of the four seam formatters around a *block-style seam* - a removed position
+  `pos` that is followed by a line break and preceded on its line by blanks only, the line not being the first of
+  the file - consists of whole whitespace-only lines:
+  * `hull_shape`: the hull `[S, E)` is whitespace, `S` is a line start with `S ≤ pos`, and `E` is `pos`, `pos+1`
+    (just behind the residual line break) or the position of a line break;
+  * `non_blank_line_intact`: consequently no byte of any non-blank line, nor the line break that ends it, lies in
+    the hull: surviving non-blank lines stay byte for byte, indentation included, each on a line of its own.
+  Not proved yet: the blank-line arithmetic `a + b - [a>0 ∧ b>0]` in closed form, and the lifting from one seam
+  to a block document (that every seam of such a document is block-style and that seams separated by a
+  non-blank line do not interact).  The first line of the file is the known finding D7.
+-/
 namespace Chiritori.Props.C13
+open Chiritori
+
+/-- position `x` starts a line -/
+def LineStart (b : Bytes) (x : Nat) : Prop := x = 0 ∨ (0 < x ∧ b[x - 1]? = some (.lead '\n'))
+
+/-- what each seam formatter contributes -/
+structure SeamPart (s : List Char) (pos : Nat) (r : Nat × Nat) : Prop where
+  good : GoodRange s pos r
+  startOK : r.1 = pos ∨ LineStart (bytesOf s) r.1
+  endOK : r.2 = pos ∨ (r.2 = pos + 1 ∧ (bytesOf s)[pos]? = some (.lead '\n')) ∨ (bytesOf s)[r.2]? = some (.lead '\n')
+
+theorem fmtIndent_part (s : List Char) (pos : Nat) (r : Nat × Nat) (hb : isBoundary (bytesOf s) pos = true)
+    (hl : pos ≤ blen s) (h : fmtIndent (bytesOf s) pos = .ok r) : SeamPart s pos r := by
+  have g := fmtIndent_good s pos r hb hl h
+  refine ⟨g, ?_, ?_⟩
+  · unfold fmtIndent at h
+    split at h
+    · injection h with h; subst h; exact Or.inl rfl
+    · rename_i hg
+      simp only [not_or, Nat.not_le, Bool.not_eq_true', Bool.not_eq_eq_eq_not, Bool.not_not] at hg
+      have hlt : pos < blen s := by simpa using hg.1
+      cases hsc : indentScan ((bytesOf s).take pos).reverse pos with
+      | none => rw [hsc] at h; injection h with h; subst h; exact Or.inl rfl
+      | some s' =>
+        rw [hsc] at h
+        injection h with h; subst h
+        have hlen : ((bytesOf s).take pos).reverse.length = pos := by simp; omega
+        obtain ⟨h1, h2, h3, _⟩ := indentScan_some _ pos s' hlen hsc
+        have hble : pos ≤ (bytesOf s).length := by simp; omega
+        rw [rev_take_getElem? _ pos _ hble (by omega)] at h3
+        rw [show pos - 1 - (pos - s') = s' - 1 by omega] at h3
+        exact Or.inr (Or.inr ⟨h1, h3⟩)
+  · unfold fmtIndent at h
+    split at h
+    · injection h with h; subst h; exact Or.inl rfl
+    · split at h <;> (injection h with h; subst h; exact Or.inl rfl)
+
+theorem fmtEmpty_part (s : List Char) (pos : Nat) (r : Nat × Nat)
+    (h : fmtEmpty (bytesOf s) pos = .ok r) : SeamPart s pos r := by
+  obtain ⟨hb, hl, g⟩ := fmtEmpty_good s pos r h
+  refine ⟨g, ?_, ?_⟩
+  · unfold fmtEmpty at h
+    split at h
+    · simp at h
+    · split at h
+      · injection h with h; subst h; exact Or.inl rfl
+      · dsimp only at h
+        split at h <;> (injection h with h; subst h; exact Or.inl rfl)
+  · unfold fmtEmpty at h
+    split at h
+    · simp at h
+    · split at h
+      · injection h with h; subst h; exact Or.inl rfl
+      · rename_i hnl
+        simp only [Bool.not_eq_true', Bool.not_eq_false] at hnl
+        dsimp only at h
+        split at h
+        · injection h with h; subst h
+          exact Or.inr (Or.inl ⟨rfl, (byteIs_iff _ _ _).mp hnl⟩)
+        · injection h with h; subst h; exact Or.inl rfl
+
+theorem fmtPrev_part (s : List Char) (pos : Nat) (r : Nat × Nat) (hb : isBoundary (bytesOf s) pos = true)
+    (hl : pos ≤ blen s) (h : fmtPrev (bytesOf s) pos = .ok r) : SeamPart s pos r := by
+  have g := fmtPrev_good s pos r hb hl h
+  refine ⟨g, ?_, ?_⟩
+  · unfold fmtPrev at h
+    cases hp1 : findPrevLB (bytesOf s) pos true with
+    | none => rw [hp1] at h; simp at h; subst h; exact Or.inl rfl
+    | some p1 =>
+      rw [hp1] at h
+      simp only [Option.bind_some] at h
+      cases hp2 : findPrevLB (bytesOf s) p1 true with
+      | none => rw [hp2] at h; simp at h; subst h; exact Or.inl rfl
+      | some lb =>
+        rw [hp2] at h
+        simp only at h
+        injection h with h; subst h
+        obtain ⟨_, _, _, c4, _, _⟩ := findPrevLB_some _ p1 lb true hp2
+        exact Or.inr (Or.inr ⟨by simp, by simpa using c4⟩)
+  · unfold fmtPrev at h
+    split at h <;> (injection h with h; subst h; exact Or.inl rfl)
+
+theorem fmtNext_part (s : List Char) (pos : Nat) (r : Nat × Nat) (hb : isBoundary (bytesOf s) pos = true)
+    (hl : pos ≤ blen s) (h : fmtNext (bytesOf s) pos = .ok r) : SeamPart s pos r := by
+  have g := fmtNext_good s pos r hb hl h
+  refine ⟨g, ?_, ?_⟩
+  · unfold fmtNext at h
+    split at h <;> (injection h with h; subst h; exact Or.inl rfl)
+  · unfold fmtNext at h
+    cases hp1 : findNextLB (bytesOf s) pos true with
+    | none => rw [hp1] at h; simp at h; subst h; exact Or.inl rfl
+    | some p1 =>
+      rw [hp1] at h
+      simp only [Option.bind_some] at h
+      cases hp2 : findNextLB (bytesOf s) (p1 + 1) true with
+      | none => rw [hp2] at h; simp at h; subst h; exact Or.inl rfl
+      | some lb =>
+        rw [hp2] at h
+        simp only at h
+        injection h with h; subst h
+        obtain ⟨_, _, _, c4, _, _⟩ := findNextLB_some _ (p1 + 1) lb true hp2
+        exact Or.inr (Or.inr c4)
+
+theorem hull_part (s : List Char) (pos : Nat) (a c : Nat × Nat) (ha : SeamPart s pos a) (hc : SeamPart s pos c) :
+    SeamPart s pos (min c.1 a.1, max c.2 a.2) := by
+  have ga := ha.good
+  have gc := hc.good
+  refine ⟨?_, ?_, ?_⟩
+  · refine ⟨by have := ga.le1; omega, by have := ga.le2; omega, by have := ga.len; have := gc.len; omega, ?_, ?_, ?_⟩
+    · intro i hi1 hi2
+      by_cases hip : i < pos
+      · by_cases hia : a.1 ≤ i
+        · exact ga.ws i hia (by have := ga.le2; omega)
+        · exact gc.ws i (by omega) (by have := gc.le2; omega)
+      · by_cases hia : i < a.2
+        · exact ga.ws i (by have := ga.le1; omega) hia
+        · exact gc.ws i (by have := gc.le1; omega) (by omega)
+    · by_cases hm : c.1 ≤ a.1
+      · rw [Nat.min_eq_left hm]; exact gc.b1
+      · rw [Nat.min_eq_right (by omega)]; exact ga.b1
+    · by_cases hm : c.2 ≤ a.2
+      · rw [Nat.max_eq_right hm]; exact ga.b2
+      · rw [Nat.max_eq_left (by omega)]; exact gc.b2
+  · by_cases hm : c.1 ≤ a.1
+    · simp only [Nat.min_eq_left hm]
+      rcases hc.startOK with h | h
+      · left; exact h
+      · right; exact h
+    · simp only [Nat.min_eq_right (by omega : a.1 ≤ c.1)]
+      rcases ha.startOK with h | h
+      · left; exact h
+      · right; exact h
+  · by_cases hm : c.2 ≤ a.2
+    · simp only [Nat.max_eq_right hm]; exact ha.endOK
+    · simp only [Nat.max_eq_left (by omega : a.2 ≤ c.2)]; exact hc.endOK
+
+/-- the hull `format_block` computes around a removed position -/
+theorem hull_shape (s : List Char) (pos : Nat) (r : Nat × Nat)
+    (h : formatBlock (bytesOf s) pos seamFormatters (pos, pos) = .ok r) : SeamPart s pos r := by
+  unfold seamFormatters at h
+  simp only [formatBlock] at h
+  cases h1 : fmtIndent (bytesOf s) pos with
+  | error e => rw [h1] at h; simp at h
+  | ok r1 =>
+    rw [h1] at h
+    simp only at h
+    cases h2 : fmtEmpty (bytesOf s) pos with
+    | error e => rw [h2] at h; simp at h
+    | ok r2 =>
+      rw [h2] at h
+      simp only at h
+      obtain ⟨hb, hl, _⟩ := fmtEmpty_good s pos r2 h2
+      cases h3 : fmtPrev (bytesOf s) pos with
+      | error e => rw [h3] at h; simp at h
+      | ok r3 =>
+        rw [h3] at h
+        simp only at h
+        cases h4 : fmtNext (bytesOf s) pos with
+        | error e => rw [h4] at h; simp at h
+        | ok r4 =>
+          rw [h4] at h
+          simp only at h
+          injection h with h
+          subst h
+          have p0 : SeamPart s pos (pos, pos) := ⟨goodRange_empty s pos hb hl, Or.inl rfl, Or.inl rfl⟩
+          exact hull_part s pos _ r4 (hull_part s pos _ r3 (hull_part s pos _ r2 (hull_part s pos _ r1 p0
+            (fmtIndent_part s pos r1 hb hl h1)) (fmtEmpty_part s pos r2 h2)) (fmtPrev_part s pos r3 hb hl h3))
+            (fmtNext_part s pos r4 hb hl h4)
+
+/-- C13 (a), one seam: a non-blank line - the bytes `[ls, le)` between two line breaks with a non-whitespace
+    byte at `x` - and the line break at `le` that ends it are disjoint from the hull of a block-style seam -/
+theorem non_blank_line_intact (s : List Char) (pos : Nat) (r : Nat × Nat) (hp : SeamPart s pos r)
+    (hseam : (bytesOf s)[pos]? = some (.lead '\n') ∨ pos = blen s)
+    (ls le x : Nat) (hls : LineStart (bytesOf s) ls) (hx1 : ls ≤ x) (hx2 : x < le)
+    (hnonl : ∀ i, ls ≤ i → i < le → (bytesOf s)[i]? ≠ some (.lead '\n'))
+    (hxnw : ∀ y, (bytesOf s)[x]? = some y → ¬ isWsByte y) (hxin : x < blen s)
+    (hstartline : r.1 = pos → pos ≤ ls ∨ le < pos) :
+    r.2 ≤ ls ∨ le < r.1 := by
+  have g := hp.good
+  -- x itself is not in the hull
+  have hxout : ¬ (r.1 ≤ x ∧ x < r.2) := by
+    rintro ⟨h1, h2⟩
+    obtain ⟨y, hy, hw⟩ := g.ws x h1 h2
+    exact hxnw y hy hw
+  -- where the hull starts
+  have hS : r.1 ≤ ls ∨ le < r.1 := by
+    rcases hp.startOK with h | h
+    · rcases hstartline h with h' | h'
+      · left; omega
+      · right; omega
+    · rcases h with h | ⟨h0, h1⟩
+      · left; omega
+      · by_cases hle : r.1 ≤ ls
+        · exact Or.inl hle
+        · by_cases hgt : le < r.1
+          · exact Or.inr hgt
+          · exfalso
+            exact hnonl (r.1 - 1) (by omega) (by omega) h1
+  rcases hS with hS | hS
+  · left
+    by_cases hE : r.2 ≤ ls
+    · exact hE
+    · exfalso
+      have hEx : r.2 ≤ x := by
+        by_cases hh : r.2 ≤ x
+        · exact hh
+        · exact absurd ⟨by omega, by omega⟩ hxout
+      rcases hp.endOK with h | ⟨h, hnl⟩ | h
+      · rcases hseam with hs | hs
+        · exact hnonl pos (by omega) (by omega) hs
+        · omega
+      · exact hnonl pos (by omega) (by omega) hnl
+      · exact hnonl r.2 (by omega) (by omega) h
+  · exact Or.inr hS
+
+/-! Kernel-evaluated instances: the four (b, a) shapes around one seam (positions of CHANGELOG 0.3.0 style). -/
+def hull (src : String) (pos : Nat) : Option (Nat × Nat) :=
+  match formatBlock (bytesOf src.toList) pos seamFormatters (pos, pos) with
+  | .ok r => some r
+  | .error _ => none
+example : hull "foo\n  \nbar\n" 6 = some (4, 7) := by decide +kernel             -- b = 0, a = 0: the residue line goes
+example : hull "foo\n\n  \nbar\n" 7 = some (4, 7) := by decide +kernel           -- b = 1, a = 0: one blank line stays
+example : hull "foo\n  \n\nbar\n" 6 = some (4, 7) := by decide +kernel           -- b = 0, a = 1
+example : hull "foo\n\n  \n\nbar\n" 7 = some (4, 8) := by decide +kernel         -- b = 1, a = 1: one of the two goes
+
 end Chiritori.Props.C13
